@@ -74,8 +74,15 @@ def convert_and_compare(ctx, doc, case, spec, intern, path, out, **kw):
 
     shutil.rmtree(out, ignore_errors=True)
     shutil.rmtree(out + ".icf", ignore_errors=True)
+    col = kw.pop("column_chunk_size", None)
     try:
-        vcf2zarr.convert([path], out, worker_processes=0, icf_path=out + ".icf", **kw)
+        if col is None:
+            vcf2zarr.convert([path], out, worker_processes=0, icf_path=out + ".icf", **kw)
+        else:
+            # the same conversion in its two documented steps, the intermediate store written in chunks of a few hundred bytes
+            # (every field spans many chunks per partition, as a field of a large file does with the default 16 MiB)
+            vcf2zarr.explode(out + ".icf", [path], worker_processes=0, column_chunk_size=col)
+            vcf2zarr.encode(out + ".icf", out, worker_processes=0, **kw)
     except Exception as e:  # noqa: BLE001
         msg = f"{type(e).__name__}: {e}"[:300]
         big = over_limit_arrays(out + ".icf", **kw)
@@ -161,6 +168,9 @@ def run(ctx):
             variants = [variants[i % 3], variants[(i + 1) % 3]]
         stores = {}
         kw = dict(variants_chunk_size=r.choice([None, 1, 3, 7]), samples_chunk_size=r.choice([None, 1, 2]))
+        if i % 3 == 1:
+            kw["column_chunk_size"] = r.choice([0.0001, 0.0005, 0.002])      # MiB
+            ctx.count("two-step conversion, small intermediate chunks")
         for cont, idx, bcf in variants:
             if bcf and case.get("file_order") == "reversed-contigs":
                 pass  # bcftools view keeps the record order; the header order decides the output order
@@ -174,7 +184,7 @@ def run(ctx):
             ctx.count(f"{cont}+{idx}")
             for k, n, t in case["infos"] + case["fmts"]:
                 ctx.count(f"field:{t}:{n}")
-            stores[(cont, idx)] = convert_and_compare(ctx, doc, case, spec, intern, p, os.path.join(d, "out.vcz"), **kw)
+            stores[(cont, idx)] = convert_and_compare(ctx, dict(doc, column_chunk_size=kw.get("column_chunk_size")), case, spec, intern, p, os.path.join(d, "out.vcz"), **kw)
             ctx.traces_validated += 1
         keys = [k for k in stores if stores[k] is not None]
         for a, b in zip(keys, keys[1:]):
@@ -205,6 +215,7 @@ def replay(ctx, rep):
         os.makedirs(d, exist_ok=True)
         p = vcfgen.make_indexed(d, "in", file_text(case), kind=c.get("index", "tbi"), bcf=(c.get("container") == "bcf"))
         ctx.case(c)
-        convert_and_compare(ctx, c, case, spec, intern, p, os.path.join(d, "out.vcz"))
+        extra = {"column_chunk_size": c["column_chunk_size"]} if c.get("column_chunk_size") else {}
+        convert_and_compare(ctx, c, case, spec, intern, p, os.path.join(d, "out.vcz"), **extra)
     else:
         run(ctx)
